@@ -29,7 +29,15 @@ size_t in_plen, in_slen;
 char in_phrase[MAX_P + 1];
 char in_setting[MAX_S + 1];
 static char long_phrase[CRYPT_MAX_PASSPHRASE_SIZE + 1];
+#ifdef PLACE_K
+/* the caller's object at byte offset PLACE_K inside a larger arena: every
+   alignment class of the char-typed object (get_internal re-aligns internally) */
+static _Alignas(16) char vf_arena[sizeof(struct crypt_data) + 16];
+#define cd (*(struct crypt_data *)(vf_arena + PLACE_K))
+static struct crypt_data cd0;
+#else
 static struct crypt_data cd, cd0;
+#endif
 
 static int okchar(unsigned char c)
 {
